@@ -390,9 +390,16 @@ TREE_NAMES = [("t1", "t1"), ("T2", "T2"), ("con_50", "con 50"), ("'my tree'", "m
 TITLES = ["Taxa1", "Taxa2", "chars", "M1", "trees_A", "Tb", "Untitled"]
 
 
+# FORMAT subcommands beyond DATATYPE / SYMBOLS / GAP / MISSING / MATCHCHAR / INTERLEAVE that leave the meaning of a
+# matrix in standard layout unchanged (equates that the matrix does not use, and the NEXUS defaults spelled out); the
+# reader accepts and ignores them.  TRANSPOSE, NOLABELS, TOKENS, RESPECTCASE, ITEMS would change the meaning and are
+# left to the statement soups.
+FORMAT_EXTRAS = [None, None, None, 'EQUATE="R={AG} Y={CT}"', 'EQUATE="x=A"', 'EQUATE = "u=(AC) v={ACG} w=T"',
+                 "EQUATE=\"B={CT}\n      K={GT}\"", "LABELS", "LABELS=LEFT", "STATESFORMAT=STATESPRESENT", "NOTOKENS"]
 MATRIX_PLANS = st.fixed_dictionaries({
     "data_type": st.sampled_from(["dna", "dna", "dna", "protein", "standard", "standard", "rna", "continuous"]),
-    "nchar": st.integers(1, 64), "interleaved": st.booleans(), "wrap": st.integers(0, 2)})
+    "nchar": st.integers(1, 64), "interleaved": st.booleans(), "wrap": st.integers(0, 2),
+    "format_extra": st.sampled_from(range(len(FORMAT_EXTRAS)))})
 
 
 @st.composite
@@ -447,6 +454,9 @@ def _nexus_matrix_block(draw, labels, label_texts, ntax_declared_before, fancy, 
                                            kw("INTERLEAVE") + eq() + "yes"])))
     elif draw(st.integers(0, 5)) == 0:
         extra.append(kw("INTERLEAVE") + eq() + draw(st.sampled_from(["NO", "no"])))
+    fx = FORMAT_EXTRAS[plan.get("format_extra", 0)]
+    if fx is not None and not (fx == "NOTOKENS" and data_type == "continuous"):
+        extra.append(fx)
     extra = list(draw(st.permutations(extra)))
     out += "  " + kw("FORMAT") + sp() + sp().join(fmt + extra) + draw(_opt_ws(fancy)) + ";\n"
     out += "  " + kw("MATRIX") + "\n"
